@@ -235,6 +235,31 @@ struct Builder
             return std::make_shared<oi::Shape<oi::InfWedge>>(
                 fresh(), oi::InfWedge{Turn{o.at("s").get<int>() / 4.0}, Turn{o.at("w").get<int>() / 4.0}});
         }
+        if (k == "oprism")  // oracle-decided family: regular prism, any n / orientation
+        {
+            return std::make_shared<oi::PrismShape>(
+                fresh(), oi::Prism{o.at("n").get<int>(), o.at("a").get<double>(), o.at("hh").get<double>(), o.at("ori").get<double>()});
+        }
+        if (k == "ppiped")  // oracle-decided family: parallelepiped
+        {
+            auto h = o.at("h").get<std::vector<double>>();
+            return std::make_shared<oi::ParallelepipedShape>(
+                fresh(),
+                oi::Parallelepiped{Real3{h[0], h[1], h[2]}, Turn{o.at("alpha").get<double>()}, Turn{o.at("theta").get<double>()},
+                                   Turn{o.at("phi").get<double>()}});
+        }
+        if (k == "otf")  // general rotation (doubles) + translation
+        {
+            SquareMatrixReal3 rot;
+            Real3 tr;
+            for (int i = 0; i < 3; ++i)
+            {
+                tr[i] = o.at("t").at(i).get<double>();
+                for (int j = 0; j < 3; ++j)
+                    rot[i][j] = o.at("R").at(i).at(j).get<double>();
+            }
+            return std::make_shared<oi::Transformed>((*this)(o.at("c")), Transformation{rot, tr});
+        }
         if (k == "involute")  // C19 only (not in the lattice vocabulary)
         {
             auto r = o.at("r").get<std::vector<double>>();
@@ -413,6 +438,104 @@ std::string what_of(std::exception const& e)
 }
 
 //---------------------------------------------------------------------------//
+// Oracle-decided family: analytic membership written from the DOCUMENTED definitions (never
+// calling orangeinp).  Each function returns +1 inside / -1 outside / 0 within `margin`
+// (residual units) of a face.
+//---------------------------------------------------------------------------//
+constexpr double oracle_margin = 1e-5;
+
+int sign_all(std::vector<double> const& residuals)  // residual < 0 : inner side of that face
+{
+    bool in = true;
+    for (double r : residuals)
+    {
+        if (std::fabs(r) < oracle_margin)
+            return 0;
+        in = in && r < 0;
+    }
+    return in ? 1 : -1;
+}
+
+// Regular n-prism (IntersectRegion.hh): apothem a, half-height hh; orientation 0 has a face at
+// y = -a; orientation o rotates counterclockwise by o x (1/n turn)
+int in_prism(json const& o, Real3 const& p)
+{
+    int n = o.at("n").get<int>();
+    double a = o.at("a").get<double>(), hh = o.at("hh").get<double>(), ori = o.at("ori").get<double>();
+    std::vector<double> res{std::fabs(p[2]) - hh};
+    for (int k = 0; k < n; ++k)
+    {
+        double th = -1.5707963267948966 + 6.283185307179586 * (k + ori) / n;
+        res.push_back(std::cos(th) * p[0] + std::sin(th) * p[1] - a);
+    }
+    return sign_all(res);
+}
+
+// Parallelepiped (IntersectRegion.hh / G4Para): half-lengths of the edge projections on x, y, z;
+// alpha = angle between the y axis and the line joining the centres of the x-parallel edges of a z
+// face; theta, phi = polar / azimuthal angle of the line joining the centres of the z faces.
+// Named deviations (precise descriptions of what the implementation does instead):
+//   mode 1  the y faces lie at +-hy cos(alpha) instead of +-hy                        (F-PARA-1)
+//   mode 2  as mode 1, and the shape is clipped by the bounding box +-(a + b + c) built from
+//           a = hx x^, b = hy (sin alpha, cos alpha, 0), c = hz (sin theta cos phi, sin theta sin phi,
+//           cos theta), which does not contain the shape when alpha or theta is nonzero  (F-PARA-2)
+int in_ppiped(json const& o, Real3 const& p, int mode)
+{
+    bool const as_coded = mode >= 1;
+    auto h = o.at("h").get<std::vector<double>>();
+    double const twopi = 6.283185307179586;
+    double ta = std::tan(twopi * o.at("alpha").get<double>());
+    double tt = std::tan(twopi * o.at("theta").get<double>());
+    double ph = twopi * o.at("phi").get<double>();
+    double yy = p[1] - p[2] * tt * std::sin(ph);
+    double xx = p[0] - p[2] * tt * std::cos(ph) - yy * ta;
+    double hy = as_coded ? h[1] * std::cos(twopi * o.at("alpha").get<double>()) : h[1];
+    std::vector<double> res{std::fabs(p[2]) - h[2], std::fabs(yy) - hy, std::fabs(xx) - h[0]};
+    if (mode >= 2)
+    {
+        double al = twopi * o.at("alpha").get<double>(), th = twopi * o.at("theta").get<double>();
+        double hd[3] = {h[0] + h[1] * std::sin(al) + h[2] * std::sin(th) * std::cos(ph),
+                        h[1] * std::cos(al) + h[2] * std::sin(th) * std::sin(ph),
+                        h[2] * std::cos(th)};
+        for (int i = 0; i < 3; ++i)
+        {
+            res.push_back(p[i] - hd[i]);   // -hd < p < hd (empty if hd < 0)
+            res.push_back(-hd[i] - p[i]);
+        }
+    }
+    return sign_all(res);
+}
+
+// expected label of a point in an oracle scene; "" = within the margin of some face (excluded)
+std::string oracle_label(json const& scene, Real3 const& p, int mode)
+{
+    json const& u = scene.at("units").at(0);
+    auto bh = u.at("boundary").at("h").get<std::vector<double>>();
+    int ext = sign_all({std::fabs(p[0]) - bh[0], std::fabs(p[1]) - bh[1], std::fabs(p[2]) - bh[2]});
+    std::string found;
+    bool near = ext == 0;
+    for (auto const& m : u.at("materials"))
+    {
+        json const& tf = m.at("obj");
+        Real3 q{0, 0, 0};
+        for (int j = 0; j < 3; ++j)      // q = R^T (p - t)
+            for (int i = 0; i < 3; ++i)
+                q[j] += tf.at("R").at(i).at(j).get<double>() * (p[i] - tf.at("t").at(i).get<double>());
+        json const& o = tf.at("c");
+        int s = o.at("k").get<std::string>() == "oprism" ? in_prism(o, q) : in_ppiped(o, q, mode);
+        if (s == 0)
+            near = true;
+        if (s > 0)
+            found = m.at("label").get<std::string>() + "@u0";
+    }
+    if (near)
+        return "";
+    if (ext > 0)  // inside the boundary box
+        return found.empty() ? u.at("bg").get<std::string>() + "@u0" : found;
+    return "[EXTERIOR]@u0";
+}
+
+//---------------------------------------------------------------------------//
 // C09: probe
 //---------------------------------------------------------------------------//
 int run_probe(std::string const& scenes_path, std::string const& out_path)
@@ -432,7 +555,18 @@ int run_probe(std::string const& scenes_path, std::string const& out_path)
             continue;
         json scene = json::parse(line);
         g_where = "scene " + std::to_string(scene.at("id").get<int>());
-        out(json{{"e", "Scene"}, {"scene", scene}});
+        bool const oracle = scene.contains("oracle");
+        if (oracle)
+        {
+            // real-valued parameters stay out of the TLC trace: echo the header only
+            json head = scene;
+            head.erase("units");
+            out(json{{"e", "Scene"}, {"scene", head}});
+        }
+        else
+        {
+            out(json{{"e", "Scene"}, {"scene", scene}});
+        }
         std::shared_ptr<OrangeParams const> params;
         try
         {
@@ -464,6 +598,9 @@ int run_probe(std::string const& scenes_path, std::string const& out_path)
         {
             json lab = json::array();
             json fail = json::array();
+            json ora = json::array();   // oracle scenes: expected label (documented definitions), -1 = near a face
+            json alt = json::array();   // ... and under the named deviations of the parallelepiped (modes 1, 2)
+            json alt2 = json::array();
             for (int iy = 0; iy < n; ++iy)
                 for (int ix = 0; ix < n; ++ix)
                 {
@@ -472,8 +609,20 @@ int run_probe(std::string const& scenes_path, std::string const& out_path)
                     lab.push_back(names(nav.label()));
                     if (nav.view().failed())
                         fail.push_back(iy * n + ix);
+                    if (oracle)
+                    {
+                        std::string e0 = oracle_label(scene, pos, 0), e1 = oracle_label(scene, pos, 1),
+                                    e2 = oracle_label(scene, pos, 2);
+                        ora.push_back(e0.empty() ? -1 : names(e0));
+                        alt.push_back(e1.empty() ? -1 : names(e1));
+                        alt2.push_back(e2.empty() ? -1 : names(e2));
+                    }
                 }
-            slabs.push_back(json{{"e", "Probes"}, {"iz", iz}, {"lab", std::move(lab)}, {"fail", std::move(fail)}});
+            if (oracle)
+                slabs.push_back(json{{"e", "OProbes"}, {"iz", iz}, {"lab", std::move(lab)}, {"fail", std::move(fail)},
+                                     {"ora", std::move(ora)}, {"alt", std::move(alt)}, {"alt2", std::move(alt2)}});
+            else
+                slabs.push_back(json{{"e", "Probes"}, {"iz", iz}, {"lab", std::move(lab)}, {"fail", std::move(fail)}});
         }
         out(json{{"e", "Built"}, {"ok", true}, {"msg", ""}, {"names", names.list}});
         for (auto const& s : slabs)
